@@ -1419,7 +1419,14 @@ class FloatGen:
             b, vb = sub()
             c = self.i(0, 5)
             if c <= 2:
-                ex = self.pick((-2, -1, 0, 1, 1, 2, 2, 3))
+                ex = self.pick((-2, -1, -1, 0, 1, 1, 2, 2, 3))
+                if ex < 0 and self.i(0, 1) == 0:
+                    # a product or quotient as the base of a negative power
+                    b2 = [self.pick(("Product", "Product", "Quotient")), b, sub()[0]]
+                    b2 = ["Product", b2[1:]] if b2[0] == "Product" else b2
+                    v2 = self.ok(b2)
+                    if v2 is not None and abs(v2) >= 1e-3:
+                        return ["Power", b2, C(ex) if self.i(0, 1) else F(float(ex))]
                 if ex < 0 and abs(vb) < 1e-3:
                     b = self.positive(b, -1.0)
                 return ["Power", b, C(ex)]
